@@ -466,13 +466,23 @@ Proof.
   intros HI. apply (RefInv_aset_urr _ _ inf); [exact HI | exact El|]. destruct (uo_info o), (uo_method o); reflexivity.
 Qed.
 
+Lemma forget_urr_rkeep ok i rs c : rkeep c (forget_urr ok i rs c).
+Proof.
+  destruct (forget_urr_s ok i rs c) as [E|E]; [apply rkeep_same; exact E|].
+  apply rkeep_same_pdrs; rewrite E; [reflexivity|].
+  intros HI. apply RefInv_urrs; [exact HI | apply adel_NoDup; apply HI|].
+  intros u x H. destruct (N.eq_dec u i) as [->|Hne]; [rewrite alookup_adel_same in H; discriminate|].
+  rewrite alookup_adel_other in H by exact Hne. exists x. auto.
+Qed.
+
 Lemma remove_urr_rkeep e id c : rkeep c (fst (remove_urr e id c)).
 Proof.
   unfold remove_urr. destruct id as [i|]; [|apply rkeep_refl].
   destruct (alookup i (s_urrs (c_s c))) as [inf|] eqn:El; [|apply rkeep_refl].
   match goal with |- context [drv e ?cx DRemove KURR i] =>
     pose proof (drv_s e cx DRemove KURR i) as Hs; destruct (drv e cx DRemove KURR i) as [c2 ok] end.
-  cbn [fst] in *. apply rkeep_same_pdrs; rewrite Hs; cbn [upd_s c_s]; [reflexivity|].
+  cbn [fst] in *. eapply rkeep_trans; [|apply forget_urr_rkeep].
+  apply rkeep_same_pdrs; rewrite Hs; cbn [upd_s c_s]; [reflexivity|].
   intros HI. apply (RefInv_aset_urr _ _ inf); [exact HI | exact El | reflexivity].
 Qed.
 
@@ -762,17 +772,45 @@ Qed.
 
 Definition remove_ok (c : sctx) (k : kind) (id : N) : bool := dp_has (c_dp c) (s_lid (c_s c), k, id).
 
+(* whether the entry of a removed URR is still needed: a returned report names it, or the removal failed *)
+Definition remove_keeps (e : env) (c : sctx) (i : N) : bool :=
+  negb (remove_ok c KURR i) || names_urr i (map (or_trig USAR_TRIG_TERMR) (usage e DRemove i)).
+
 Theorem remove_urr_termr e i c inf :
   alookup i (s_urrs (c_s c)) = Some inf ->
   snd (remove_urr e (Some i) c) =
     (if remove_ok c KURR i then map (or_trig USAR_TRIG_TERMR) (usage e DRemove i) else []) /\
   c_out (fst (remove_urr e (Some i) c)) = c_out c ++ [ODrv DRemove KURR (s_lid (c_s c)) i (remove_ok c KURR i)] /\
-  exists inf', alookup i (s_urrs (c_s (fst (remove_urr e (Some i) c)))) = Some inf' /\ ui_removed inf' = true /\
-               ui_seqn inf' = ui_seqn inf /\ ui_ref inf' = ui_ref inf.
+  (if remove_keeps e c i
+   then exists inf', alookup i (s_urrs (c_s (fst (remove_urr e (Some i) c)))) = Some inf' /\ ui_removed inf' = true /\
+                     ui_seqn inf' = ui_seqn inf /\ ui_ref inf' = ui_ref inf
+   else alookup i (s_urrs (c_s (fst (remove_urr e (Some i) c)))) = None).
 Proof.
-  intros Hu. unfold remove_urr. rewrite Hu. unfold drv, dp_call, remove_ok. cbn [upd_s c_s c_dp set_urrs s_lid].
-  destruct (dp_has (c_dp c) (s_lid (c_s c), KURR, i)); cbn [fst snd c_out c_s s_urrs];
-    (split; [reflexivity|]; split; [reflexivity|]; eexists; split; [apply alookup_aset_same|]; repeat split).
+  intros Hu. unfold remove_urr, remove_keeps. rewrite Hu. unfold drv, dp_call, remove_ok. cbn [upd_s c_s c_dp set_urrs s_lid].
+  destruct (dp_has (c_dp c) (s_lid (c_s c), KURR, i)); cbn [fst snd c_out c_s s_urrs negb orb];
+    (split; [reflexivity|]; split; [rewrite forget_urr_out; reflexivity|]); unfold forget_urr; cbn [andb negb].
+  - destruct (names_urr i (map (or_trig USAR_TRIG_TERMR) (usage e DRemove i))); cbn [negb upd_s c_s set_urrs s_urrs].
+    + eexists; split; [apply alookup_aset_same|]; repeat split.
+    + apply alookup_adel_same.
+  - eexists; split; [apply alookup_aset_same|]; repeat split.
+Qed.
+
+Lemma removed_urr_unknown e i c inf :
+  alookup i (s_urrs (c_s c)) = Some inf -> remove_keeps e c i = false ->
+  alookup i (s_urrs (c_s (fst (remove_urr e (Some i) c)))) = None.
+Proof.
+  intros H K. pose proof (remove_urr_termr e i c inf H) as [_ [_ T]]. rewrite K in T. exact T.
+Qed.
+
+(* in every case: an entry of that id which is still there is marked removed *)
+Lemma remove_urr_marked e i c x :
+  alookup i (s_urrs (c_s (fst (remove_urr e (Some i) c)))) = Some x -> ui_removed x = true.
+Proof.
+  destruct (alookup i (s_urrs (c_s c))) as [inf|] eqn:E0.
+  - destruct (remove_urr_termr e i c inf E0) as [_ [_ T]]. intros Hx.
+    destruct (remove_keeps e c i); [|congruence].
+    destruct T as [inf' [H1 [H2 _]]]. rewrite H1 in Hx. inversion Hx; subst. exact H2.
+  - unfold remove_urr. rewrite E0. cbn [fst]. congruence.
 Qed.
 
 Theorem query_urr_immer e i c inf :
@@ -877,13 +915,22 @@ Proof.
   apply rm_mono_same. destruct ok; cbn [upd_s c_s]; rewrite Hs; [destruct k|]; reflexivity.
 Qed.
 
+Lemma forget_urr_rm ok i rs c : rm_mono c (forget_urr ok i rs c).
+Proof.
+  destruct (forget_urr_s ok i rs c) as [E|E]; [apply rm_mono_same; rewrite E; reflexivity|].
+  intros u inf' H. rewrite E in H. cbn [set_urrs s_urrs] in H.
+  destruct (N.eq_dec u i) as [->|Hne]; [rewrite alookup_adel_same in H; discriminate|].
+  rewrite alookup_adel_other in H by exact Hne. exists inf'. auto.
+Qed.
+
 Lemma remove_urr_rm e id c : rm_mono c (fst (remove_urr e id c)).
 Proof.
   unfold remove_urr. destruct id as [i|]; [|apply rm_mono_refl].
   destruct (alookup i (s_urrs (c_s c))) as [inf|] eqn:El; [|apply rm_mono_refl].
   match goal with |- context [drv e ?cx DRemove KURR i] =>
     pose proof (drv_s e cx DRemove KURR i) as Hs; destruct (drv e cx DRemove KURR i) as [c2 ok] end.
-  cbn [fst] in *. intros u inf' H. rewrite Hs in H. cbn [upd_s c_s set_urrs s_urrs] in H.
+  cbn [fst] in *. apply (rm_mono_trans c c2); [|apply forget_urr_rm].
+  intros u inf' H. rewrite Hs in H. cbn [upd_s c_s set_urrs s_urrs] in H.
   destruct (N.eq_dec u i) as [->|Hne].
   - rewrite alookup_aset_same in H. inversion H; subst. exists inf. split; [exact El | reflexivity].
   - rewrite alookup_aset_other in H by exact Hne. exists inf'. auto.
@@ -911,17 +958,14 @@ Lemma fold_remove_urr_marks e ids : forall c u inf',
 Proof.
   induction ids as [|a ids IH]; intros c u inf' Hin H; [destruct Hin|].
   cbn [map fold_rpt] in H.
-  pose proof (remove_urr_termr e a c) as T.
+  pose proof (remove_urr_marked e a c) as T.
   destruct (remove_urr e (Some a) c) as [c1 r1] eqn:E1.
   assert (M : rm_mono c1 (fst (fold_rpt (remove_urr e) (map Some ids) c1))).
   { apply (fold_rpt_rel rm_mono rm_mono_refl rm_mono_trans). intros; apply remove_urr_rm. }
   pose proof (IH c1 u inf') as IH1.
   destruct (fold_rpt (remove_urr e) (map Some ids) c1) as [c2 r2]. cbn [fst] in *.
   destruct (N.eq_dec u a) as [->|Hne].
-  - destruct (M _ _ H) as [inf1 [H1 E]]. apply E.
-    destruct (alookup a (s_urrs (c_s c))) as [inf0|] eqn:E0.
-    + destruct (T inf0 eq_refl) as [_ [_ [x [Hx [Hr _]]]]]. rewrite H1 in Hx. inversion Hx; subst. exact Hr.
-    + unfold remove_urr in E1. rewrite E0 in E1. inversion E1; subst. congruence.
+  - destruct (M _ _ H) as [inf1 [H1 E]]. apply E. apply (T inf1). exact H1.
   - destruct Hin as [Ha|Hin]; [congruence|]. apply IH1; assumption.
 Qed.
 
